@@ -121,12 +121,13 @@ def families(tier):
     P = ["size", "cb", "x1", "x2", "a2", "x3", "a3", "x4", "a4", "t"]
     base = ["0 <= cb <= 3", "0 <= x1 <= 3", "0 <= x2 < %d" % NOP, "a2 >= -1", "t >= 0"]
     if not thorough:
-        pre = base + ["0 <= size <= 2", "0 <= x3 < %d" % NOP, "a3 >= -1", "x4 == %d or (x2 == 4 and x3 == 7 and x4 == 11)" % NOP, "a4 == 0"]
+        pre = base + ["0 <= size <= 2", "0 <= x3 < %d" % NOP, "a3 >= -1", "x4 == %d or (x2 == 4 and x3 == 7 and x4 == 11) or (x2 == 2 and x3 == 7 and x4 == 2)" % NOP, "a4 >= -1", "a4 <= 2", "a4 == 0 or x4 == 2"]
         parts = parts_product(cb=(3,), x1=(0, 1, 3), x2=range(NOP - 2), x3=(4, 7, 8))
         parts += parts_product(cb=(3,), x1=(0, 1, 3), x2=(9,), x3=(2,))      # lock, then a task finishes
         parts = [p + ["x4 == %d" % NOP] for p in parts]
         parts += parts_product(cb=(3,), x1=(0, 1, 3), x2=(4,), x3=(7,), x4=(11,))   # cancel; flush; the flush call is cancelled
         parts += [p + ["x4 == %d" % NOP] for p in parts_product(cb=(3,), x1=(0, 1), x2=(12,), x3=(0, 1, 2, 3))]   # gather_and_close(); a task finishes / fails meanwhile
+        parts += parts_product(cb=(3,), x1=(0, 1, 3), x2=(2,), x3=(7,), x4=(2,))    # a task ends (slow callback); flush(); another task ends while the flush waits
     else:
         pre = base + ["0 <= size <= 3", "0 <= x3 <= %d" % NOP, "a3 >= -1", "x4 == %d" % NOP, "a4 == 0"]
         parts = refine(parts_product(cb=(1, 3), x1=range(4), x2=range(NOP)), ["x2 == 0", "x2 == 1"], "x3", range(NOP + 1))
@@ -140,8 +141,8 @@ def families(tier):
         prei += ["1 <= size <= 2", "cb == 3", "t >= 4", "a2 <= 1", "x2 == 0 or x2 == 4 or x2 == 7 or x2 == %d" % NOP]
         partsi = parts_product(x1=range(4), i0=range(3), i1=range(3))
     else:
-        prei += ["0 <= size <= 3"]
-        partsi = parts_product(cb=(0, 1, 3), x1=range(4), i0=range(3), i1=range(3))
+        prei += ["0 <= size <= 3", "cb == 0 or cb == 3", "a2 <= 1", "t == 0 or t >= 4", "x2 <= 2 or 4 <= x2 <= 7 or x2 == %d" % NOP]
+        partsi = parts_product(cb=(0, 3), x1=range(4), i0=range(3), i1=range(3))
     fams.append(Family(name="lossi", fn="tpl_lossi", params=PI, pre=prei, parts=partsi,
                        twin_pre=["cb == 3", "x1 == 2", "i0 == 1", "i1 == 2", "x2 == %d" % NOP],
                        twin_args=[2, 3, 2, 1, 2, 0, NOP, 0, 5]))
